@@ -960,6 +960,10 @@ class ArgumentParser(ParserDeprecations, ActionsContainer, ArgumentLinking, argp
                 save_paths(cfg)
             dump_kwargs["skip_validation"] = True
             pending_writes.append((path_fc.absolute, self.dump(cfg, **dump_kwargs)))  # type: ignore[arg-type]
+            destinations = [os.path.realpath(file_path) for file_path, _ in pending_writes]
+            repeated = sorted({d for d in destinations if destinations.count(d) > 1})
+            if repeated:
+                raise ValueError(f"Unable to save, more than one file would be written to: {', '.join(repeated)}")
             for file_path, content in pending_writes:
                 with open(file_path, "w") as f:
                     f.write(content)
